@@ -89,7 +89,11 @@ class Recorder:
 
     def __enter__(self):
         from dep_logic.markers.multi import MultiMarker
+        from dep_logic.markers.union import MarkerUnion
         rec = self
+        self.orders = []          # (list in operand order, list in set-iteration order)
+        self.order_map = {}
+        self.order_conflict = False
 
         def wrapper(m1, m2, cls):
             r = rec.orig(m1, m2, cls)
@@ -98,10 +102,52 @@ class Recorder:
                 ALL_ROWS.append((cls is MultiMarker, m1, m2, r))
             return r
         self.S._merge_single_markers = wrapper
+
+        # the iteration order of `our_markers - their_markers` / `their_markers - our_markers` in union_simplify / intersect_simplify:
+        # recomputed here exactly as the method computes it (same elements inserted in the same order give the same set order)
+        def note_orders(this, other):
+            if type(other) is not type(this):
+                return
+            ours, theirs = set(this.markers), set(other.markers)
+            for src, a, b in ((this.markers, ours, theirs), (other.markers, theirs, ours)):
+                seen, key = [], []
+                for m in src:
+                    if m in seen:
+                        continue
+                    seen.append(m)
+                    if m not in b:
+                        key.append(m)
+                if len(key) < 2:
+                    continue
+                order = list(a - b)
+                if key == order:
+                    continue
+                kt = tuple(key)
+                old = rec.order_map.get(kt)
+                if old is None:
+                    rec.order_map[kt] = order
+                    rec.orders.append((key, order))
+                elif old != order:
+                    rec.order_conflict = True
+
+        self.saved_simplify = (MultiMarker.union_simplify, MarkerUnion.intersect_simplify)
+        orig_us, orig_is = self.saved_simplify
+
+        def us(this, other):
+            note_orders(this, other)
+            return orig_us(this, other)
+
+        def isimp(this, other):
+            note_orders(this, other)
+            return orig_is(this, other)
+        MultiMarker.union_simplify, MarkerUnion.intersect_simplify = us, isimp
         return self
 
     def __exit__(self, *a):
+        from dep_logic.markers.multi import MultiMarker
+        from dep_logic.markers.union import MarkerUnion
         self.S._merge_single_markers = self.orig
+        MultiMarker.union_simplify, MarkerUnion.intersect_simplify = self.saved_simplify
 
     def table(self) -> str:
         seen, rows = set(), []
@@ -111,7 +157,13 @@ class Recorder:
                 continue
             seen.add(key)
             rows.append(f"({coqrun.cbool(kind)}, {key[1]}, {key[2]}, {'None' if r is None else '(Some ' + cmarker(r) + ')'})")
-        return "[" + "; ".join(rows) + "]"
+        prow = []
+        for key, order in getattr(self, "orders", [])[:80]:
+            try:
+                prow.append("([" + "; ".join(cmarker(m) for m in key) + "], [" + "; ".join(cmarker(m) for m in order) + "])")
+            except ValueError:
+                continue
+        return "([" + "; ".join(rows) + "], [" + "; ".join(prow) + "])"
 
 
 def cptree(node) -> str:
@@ -282,6 +334,8 @@ def stream_smark(ctx: Ctx, n_pairs: int, texts=None, with_parse=True, with_only=
     ctx.count("S-mark", total_eval)
     ctx.coverage["streams"]["S-mark-needed-set-order-search"] = len(first_bad) - len(pending) if cases else 0
     if pending:
+        pending = sorted(pending, key=lambda j: len(cases[j][2]))   # report the shortest differing case first
+        ctx.coverage["streams"]["S-mark-differing"] = [cases[j][2][:500] for j in pending[:10]]
         i = pending[0]
         ctx.broke("correspondence", "S-mark: Model/Marker.v vs dep_logic.markers",
                   f"{len(pending)} of {len(cases)} cases differ under every set-order selector; first: {cases[i][2]} :: {cases[i][1](0)[:900]}")
